@@ -218,3 +218,151 @@ Proof.
   - (* foreign keys: as before *)
     rewrite <- (af_fk a b AF). rewrite B7, A7. unfold inspect_fks. rewrite F9. reflexivity.
 Qed.
+
+(** ** plan and execution of the ALTER group *)
+Lemma all_names_update_same n f l :
+  (forall c, ct_names (f c) = ct_names c) -> all_names (update_ct n f l) = all_names l.
+Proof.
+  intros H. induction l as [|c l IH]; simpl; [reflexivity|].
+  destruct (str_eqb (ct_name c) n); simpl.
+  - change (ct_names (f c) ++ all_names l = ct_names c ++ all_names l). rewrite H. reflexivity.
+  - rewrite IH. reflexivity.
+Qed.
+
+Lemma first_err_all {A} (f : A -> result unit) l : first_err f l = Ok tt -> forall x, In x l -> f x = Ok tt.
+Proof.
+  induction l as [|a l IH]; simpl; intros H x Hx; [destruct Hx|].
+  destruct (f a) as [[]|] eqn:E; [|discriminate]. destruct Hx as [<-|Hx]; [exact E|apply IH; assumption].
+Qed.
+
+Lemma index_def_ok_mono t t' i :
+  index_def_ok t i = Ok tt -> (forall n, has_col t n = true -> has_col t' n = true) -> index_def_ok t' i = Ok tt.
+Proof.
+  unfold index_def_ok. intros H M. destruct (i_name i); [discriminate|].
+  destruct (reserved_name (n :: s)); [discriminate|]. destruct (i_parts i) as [|p ps]; [discriminate|].
+  revert H. generalize (p :: ps). induction l as [|q l IH]; simpl; intros H; [reflexivity|].
+  unfold part_ok_b in *. destruct (p_col q) as [c|].
+  - destruct (has_col t c) eqn:E; [|discriminate]. rewrite (M c E). apply IH. exact H.
+  - destruct (p_expr q); [apply IH; exact H|discriminate].
+Qed.
+
+Lemma alterable_add_col b cs cb :
+  alterable b cs = true -> In (AddColumn (c_name cb)) cs -> find_col (c_name cb) (t_cols b) = Some cb ->
+  alterable_add_column b cb = true.
+Proof.
+  unfold alterable. intros H Hin F. apply (proj1 (forallb_forall _ _) H) in Hin. simpl in Hin. rewrite F in Hin. exact Hin.
+Qed.
+
+Lemma alterable_addable b cb strict :
+  alterable_add_column b cb = true -> column_def_ok (mkTable [] false strict [] None [] [] []) cb = Ok tt ->
+  addable strict cb.
+Proof.
+  unfold alterable_add_column, addable. intros H D. split; [exact D|].
+  destruct (col_in_index b (c_name cb) || col_in_fk b (c_name cb)); [discriminate|].
+  destruct (c_default cb) as [[v|x]|].
+  - destruct (str_eqb v CURRENT_TIME || str_eqb v CURRENT_DATE || str_eqb v CURRENT_TIMESTAMP) eqn:E; [discriminate|].
+    destruct (c_gen cb) as [[x ty]|]; [apply negb_true_iff; exact H|reflexivity].
+  - discriminate.
+  - destruct (c_gen cb) as [[x ty]|]; [apply negb_true_iff; exact H|exact I].
+Qed.
+
+Lemma alter_plan_exec d ct bx cs :
+  let a := x_t (inspect_table ct) in
+  let b := x_t bx in
+  let t := x_name bx in
+  NoDup (all_names (db_tables d)) -> find_ct t (db_tables d) = Some ct -> good_ct ct ->
+  tdiff a b = Some cs -> alterable b cs = true ->
+  no_auto_names (t_idx b) -> NoDup (map c_name (t_cols b)) -> NoDup (map i_name (t_idx b)) ->
+  forallb (column_ok bx) (t_cols b) = true ->
+  (forall cb, In cb (t_cols b) -> column_def_ok b cb = Ok tt) ->
+  (forall ib, In ib (t_idx b) -> index_def_ok b ib = Ok tt) ->
+  (forall cb, In cb (added_cols (t_cols a) (t_cols b)) -> has_autoinc bx (c_name cb) = false) ->
+  (forall ib, In ib (added_idx (t_idx a) (t_idx b)) -> ~ In (i_name ib) (all_names (db_tables d))) ->
+  exists pcs, modifyTable a bx cs = Some (pcs, false) /\
+    exec_all d (map pc_cmd pcs) = Ok (set_tables d (update_ct t (fun _ => alter_ct ct b) (db_tables d))).
+Proof.
+  intros a b t ND F G HD HAL NA NDC NDI COK CDEF IDEF NOAI FRESH.
+  assert (HK := alterable_alter_kind b cs HAL).
+  destruct (find_ct_in _ _ _ F) as [Fin Fname].
+  destruct (inspect_table_fields ct (g_uniq ct G)) as [A1 [A2 [A3 [A4 [A5 [A6 [A7 A8]]]]]]]. fold a in A1, A2, A3, A4, A5, A6, A7, A8.
+  assert (GA : forall i, In i (t_idx a) -> sqlite_is_generated_index_name (set_t_name a (t_name b)) i = false).
+  { intros i Hi. apply not_generated_name. rewrite A6 in Hi. apply in_map_iff in Hi. destruct Hi as [i0 [E Hi0]].
+    subst i. simpl. apply (g_idx ct G). exact Hi0. }
+  destruct (alterable_facts a b cs HD HK (no_auto_norm_stable _ NA) GA) as [AF ECS].
+  rewrite col_add_as_map, (idx_dm_as_map a b AF), idx_add_as_map in ECS.
+  set (L1 := added_cols (t_cols a) (t_cols b)) in *.
+  set (L2 := dropped_idx (t_idx a) (t_idx b)) in *.
+  set (L3 := added_idx (t_idx a) (t_idx b)) in *.
+  assert (I1 : incl L1 (t_cols b)) by (intros x Hx; unfold L1, added_cols in Hx; apply filter_In in Hx; tauto).
+  assert (I2 : incl L2 (t_idx a)) by (intros x Hx; unfold L2, dropped_idx in Hx; apply filter_In in Hx; tauto).
+  assert (I3 : incl L3 (t_idx b)) by (intros x Hx; unfold L3, added_idx in Hx; apply filter_In in Hx; tauto).
+  assert (NDA : NoDup (map i_name (t_idx (ct_t ct)))).
+  { clear -ND Fin. induction (db_tables d) as [|c l IH]; [destruct Fin|]. simpl in ND. inversion ND as [|y ys Hy Hys]; subst.
+    destruct Fin as [->|Fin]; [eapply NoDup_app_l; eauto|apply IH; [eapply NoDup_app_r; eauto|exact Fin]]. }
+  assert (NDAi : NoDup (map i_name (t_idx a))).
+  { rewrite A6, map_map. simpl. exact NDA. }
+  assert (NA2 : no_auto_names L2).
+  { intros i Hi. apply I2 in Hi. rewrite A6 in Hi. apply in_map_iff in Hi. destruct Hi as [i0 [E Hi0]]. subst i. simpl. apply (g_idx ct G). exact Hi0. }
+  (* the plan *)
+  assert (PL : alterTable a bx cs = Some (map (add_col_pc bx) L1
+               ++ map (fun i => mkPC (SDropIndex (i_name i)) [SCreateIndex (x_name bx) i] CmDropIndex) L2
+               ++ map (create_idx_pc (x_name bx)) L3)).
+  { rewrite ECS, alterTable_app, alterTable_app.
+    rewrite (alter_cols a bx L1 NDC I1); [|intros c Hc; apply (proj1 (forallb_forall _ _) COK); apply I1; exact Hc].
+    rewrite (alter_drops a bx L2 NDAi I2 NA2).
+    rewrite (alter_adds a bx L3 NDI I3); [reflexivity|]. intros i Hi. apply NA. apply I3. exact Hi. }
+  eexists. split; [unfold modifyTable; fold b; rewrite HAL, PL; reflexivity|].
+  rewrite !map_app, !map_map. cbn [pc_cmd add_col_pc create_idx_pc].
+  assert (E1 : map (fun c => SAddColumn (x_name bx) c (has_autoinc bx (c_name c))) L1 = map (fun c => SAddColumn t c false) L1).
+  { apply map_ext_in. intros c Hc. rewrite (NOAI c Hc). reflexivity. }
+  rewrite E1.
+  change (map (fun x => SDropIndex (i_name x)) L2) with (map (fun x => SDropIndex (i_name x)) L2).
+  rewrite <- (map_map i_name SDropIndex L2).
+  fold t.
+  destruct (attr_part_nil_flags a b (af_attr a b AF)) as [_ STR]. rewrite A3 in STR.
+  (* phase 1 *)
+  rewrite exec_all_app.
+  rewrite (exec_add_columns t L1 d ct F (g_rows ct G)).
+  2:{ intros c Hc. apply (alterable_addable b c).
+      - apply (alterable_add_col b cs c HAL).
+        + rewrite ECS. apply in_or_app. left. apply in_map_iff. exists c. split; [reflexivity|exact Hc].
+        + apply find_col_nodup; [exact NDC|apply I1; exact Hc].
+      - rewrite <- (CDEF c (I1 c Hc)). apply column_def_ok_strict. simpl. exact STR. }
+  2:{ apply (NoDup_map_filter c_name). exact NDC. }
+  2:{ intros c Hc. unfold L1, added_cols in Hc. apply filter_In in Hc. destruct Hc as [_ Hc].
+      rewrite A4, find_col_inspect in Hc. unfold has_col. destruct (find_col (c_name c) (t_cols (ct_t ct))); [discriminate|reflexivity]. }
+  set (d1 := set_tables d (update_ct t (add_cols L1) (db_tables d))).
+  assert (F1 : find_ct t (db_tables d1) = Some (add_cols L1 ct)) by (apply (find_ct_update t (add_cols L1) _ ct); [reflexivity|exact F]).
+  assert (N1 : all_names (db_tables d1) = all_names (db_tables d)) by (apply all_names_update_same; reflexivity).
+  (* phase 2 *)
+  rewrite exec_all_app.
+  rewrite (exec_drop_indexes t (map i_name L2) d1 (add_cols L1 ct)).
+  2:{ rewrite N1. exact ND. }
+  2:{ exact F1. }
+  2:{ intros n Hn. simpl. apply in_map_iff in Hn. destruct Hn as [i [E Hi]]. apply I2 in Hi. rewrite A6 in Hi.
+      apply in_map_iff in Hi. destruct Hi as [i0 [E0 Hi0]]. subst i n. simpl. apply in_map. exact Hi0. }
+  2:{ apply (NoDup_map_filter i_name). exact NDAi. }
+  set (d2 := set_tables d1 (update_ct t (drop_idx (map i_name L2)) (db_tables d1))).
+  set (c2 := drop_idx (map i_name L2) (add_cols L1 ct)).
+  assert (F2 : find_ct t (db_tables d2) = Some c2) by (apply (find_ct_update t (drop_idx (map i_name L2)) _ (add_cols L1 ct)); [reflexivity|exact F1]).
+  (* phase 3 *)
+  change (map (fun x : index => SCreateIndex t x) L3) with (map (SCreateIndex t) L3).
+  rewrite (exec_create_indexes t L3 d2 c2 F2).
+  2:{ apply (g_rows ct G). }
+  2:{ intros i Hi. apply (index_def_ok_mono b); [apply IDEF; apply I3; exact Hi|].
+      intros n Hn. unfold c2, has_col. simpl. rewrite find_col_app.
+      destruct (find_col n (t_cols (ct_t ct))) eqn:E; [reflexivity|].
+      unfold has_col in Hn. destruct (find_col n (t_cols b)) as [cb|] eqn:Eb; [|discriminate].
+      apply kfind_some_in in Eb. destruct Eb as [Hcb Hname].
+      assert (X : In cb L1).
+      { unfold L1, added_cols. apply filter_In. split; [exact Hcb|]. rewrite A4, find_col_inspect, Hname, E. reflexivity. }
+      assert (Y : find_col (c_name cb) L1 <> None) by (apply (kfind_in_some c_name); exact X).
+      rewrite Hname in Y. destruct (find_col n L1); [reflexivity|congruence]. }
+  2:{ apply (NoDup_map_filter i_name). exact NDI. }
+  2:{ intros i Hi Hin. apply (FRESH i Hi). rewrite <- N1. unfold d2 in Hin. simpl in Hin.
+      eapply all_names_drop_incl. exact Hin. }
+  f_equal. unfold d2, d1, set_tables. simpl. f_equal.
+  rewrite (update_ct_update t (add_cols L1) (drop_idx (map i_name L2))); [|reflexivity].
+  rewrite (update_ct_update t _ (add_idx L3)); [|reflexivity].
+  rewrite (update_ct_same t _ _ ct F). reflexivity.
+Qed.
